@@ -404,3 +404,141 @@ func TestC18SignHistories(t *testing.T) {
 	r := ev.New(t, "C18")
 	ev.Drive(t, r, genC18Hist, runC18Hist)
 }
+
+// ------------------------------------------------------------------------------------------------
+// key-object histories: one root key object (built literally or parsed from its string form) and the
+// objects derived from it are used again and again -- derived from, serialised, compared -- in a drawn
+// order; after every operation every object ever obtained must still equal its BIP32 reference.
+
+type c18Op struct {
+	Op  string // derive | string | parse-back
+	K   int    // which held key (modulo their number)
+	Idx uint32
+}
+
+type c18Objects struct {
+	RootK  H
+	Chain  B
+	Depth  uint8
+	Parsed bool // the root object comes from NewExtendedKeyFromString
+	Ops    []c18Op
+}
+
+func genC18Objects(t *rapid.T) c18Objects {
+	c := c18Objects{RootK: hx(add(drawBelow(t, "k", add(ref.Secp.N, -1)), 1)), Chain: bx(drawBytes(t, "chain", 32, 32)),
+		Depth: uint8(rapid.SampledFrom([]int{0, 0, 1, 5, 250}).Draw(t, "depth")), Parsed: rapid.Bool().Draw(t, "parsed")}
+	n := rapid.IntRange(2, 14).Draw(t, "nops")
+	for i := 0; i < n; i++ {
+		c.Ops = append(c.Ops, c18Op{Op: rapid.SampledFrom([]string{"derive", "derive", "string", "parse-back"}).Draw(t, "op"),
+			K: rapid.IntRange(0, 20).Draw(t, "k"), Idx: genIndex(t)})
+	}
+	return c
+}
+
+func runC18Objects(c c18Objects) ev.Outcome {
+	out := ev.Outcome{}
+	fail := func(sig, f string, a ...interface{}) ev.Outcome {
+		out.Err, out.Sig = fmt.Errorf(f, a...), sig
+		return out
+	}
+	curve := tss.S256()
+	px, py := curve.ScalarBaseMult(c.RootK.Big().Bytes())
+	rp := ref.XPub{Depth: c.Depth, Key: ref.Point{X: px, Y: py}}
+	copy(rp.Version[:], xpubVersion)
+	copy(rp.ChainCode[:], c.Chain.Bytes())
+	var root *ckd.ExtendedKey
+	if c.Parsed {
+		var err error
+		root, err = ckd.NewExtendedKeyFromString(rp.String(), curve)
+		if err != nil {
+			return fail("parse", "the reference serialisation of the root key is refused: %v", err)
+		}
+	} else {
+		root = &ckd.ExtendedKey{PublicKey: ecdsa.PublicKey{Curve: curve, X: px, Y: py}, Depth: c.Depth, ChainCode: c.Chain.Bytes(), ParentFP: []byte{0, 0, 0, 0}, Version: append([]byte{}, xpubVersion...)}
+	}
+	type held struct {
+		lib *ckd.ExtendedKey
+		ref ref.XPub
+		how string
+	}
+	keys := []held{{root, rp, "root"}}
+	// fieldsEqual compares without calling any method that might touch shared buffers
+	fieldsEqual := func(h held) error {
+		l, r := h.lib, h.ref
+		switch {
+		case l.PublicKey.X.Cmp(r.Key.X) != 0 || l.PublicKey.Y.Cmp(r.Key.Y) != 0:
+			return fmt.Errorf("public key changed")
+		case !bytes.Equal(l.ChainCode, r.ChainCode[:]):
+			return fmt.Errorf("chain code is %x, BIP32 says %x", l.ChainCode, r.ChainCode)
+		case !bytes.Equal(l.ParentFP, r.ParentFP[:]):
+			return fmt.Errorf("parent fingerprint is %x, BIP32 says %x", l.ParentFP, r.ParentFP)
+		case !bytes.Equal(l.Version, r.Version[:]):
+			return fmt.Errorf("version bytes are %x", l.Version)
+		case l.Depth != r.Depth || l.ChildIndex != r.ChildIdx:
+			return fmt.Errorf("depth/index changed")
+		}
+		return nil
+	}
+	derives, strings_, reuse := 0, 0, 0
+	used := map[int]int{}
+	var hist []string
+	for step, op := range c.Ops {
+		k := op.K % len(keys)
+		h := keys[k]
+		switch op.Op {
+		case "derive":
+			if h.ref.Depth == 255 {
+				continue
+			}
+			nx, _, rerr := ref.CKDPub(h.ref, op.Idx)
+			_, child, err := ckd.DeriveChildKey(op.Idx, h.lib, curve)
+			if rerr != nil {
+				if err == nil {
+					return fail("refusal-missing:invalid-child", "library derived a key where BIP32 declares the index invalid")
+				}
+				continue
+			}
+			if err != nil {
+				return fail("derive-error", "step %d: DeriveChildKey(%d) of %s failed: %v (history %v)", step, op.Idx, h.how, err, hist)
+			}
+			keys = append(keys, held{child, nx, fmt.Sprintf("%s/%d", h.how, op.Idx)})
+			derives++
+			hist = append(hist, fmt.Sprintf("derive(%s,%d)", h.how, op.Idx))
+		case "string":
+			if s := h.lib.String(); s != h.ref.String() {
+				return fail("objects-string", "step %d: String() of %s is %s, BIP32 says %s (history %v)", step, h.how, s, h.ref.String(), hist)
+			}
+			strings_++
+			hist = append(hist, fmt.Sprintf("string(%s)", h.how))
+		case "parse-back":
+			back, err := ckd.NewExtendedKeyFromString(h.ref.String(), curve)
+			if err != nil {
+				return fail("parse", "step %d: reference serialisation of %s refused: %v", step, h.how, err)
+			}
+			keys = append(keys, held{back, h.ref, h.how + "(parsed)"})
+			hist = append(hist, fmt.Sprintf("parse(%s)", h.how))
+		}
+		used[k]++
+		if used[k] == 2 {
+			reuse++
+		}
+		for _, hk := range keys {
+			if err := fieldsEqual(hk); err != nil {
+				return fail("objects-corrupted", "after step %d (%s on %s) the key object %s no longer equals its BIP32 reference: %v (history %v)", step, op.Op, h.how, hk.how, err, hist)
+			}
+		}
+	}
+	for _, hk := range keys { // final: serialisations
+		if s := hk.lib.String(); s != hk.ref.String() {
+			return fail("objects-string", "at the end String() of %s is %s, BIP32 says %s (history %v)", hk.how, s, hk.ref.String(), hist)
+		}
+	}
+	out.Label = fmt.Sprintf("key-objects root=%s derives=%d strings=%d reused-objects=%v", map[bool]string{true: "parsed", false: "literal"}[c.Parsed], min(derives, 3), min(strings_, 3), reuse > 0)
+	out.Nontrivial = reuse > 0 && derives > 0 && strings_ > 0
+	return out
+}
+
+func TestC18KeyObjects(t *testing.T) {
+	r := ev.New(t, "C18")
+	ev.Drive(t, r, genC18Objects, runC18Objects)
+}
